@@ -129,3 +129,33 @@ def hot_lines(lib_root):
             if hot:
                 out[path] = frozenset(hot)
     return out
+
+
+def with_lines(lib_root):
+    """{absolute filename: frozenset(line numbers of `with` statements)}.
+
+    The exit sequence of a `with` block is attributed to the `with` line and shows up as a second
+    line event there, *before* __exit__ is called and outside the block's exception table.  An
+    exception raised by the tracer at that event would skip __exit__, which a real asynchronous
+    exception cannot do; the abort injector therefore never fires on these lines."""
+    out = {}
+    for dirpath, dirnames, filenames in os.walk(lib_root):
+        dirnames[:] = [d for d in dirnames if d not in ('tests', '__pycache__')]
+        for fn in filenames:
+            if not fn.endswith('.py'):
+                continue
+            path = os.path.join(dirpath, fn)
+            try:
+                with open(path) as f:
+                    tree = ast.parse(f.read())
+            except (SyntaxError, UnicodeDecodeError):
+                continue
+            lines = set()
+            for n in ast.walk(tree):
+                if isinstance(n, (ast.With, ast.AsyncWith)):
+                    lines.add(n.lineno)
+                    for it in n.items:
+                        lines.add(it.context_expr.lineno)
+            if lines:
+                out[path] = frozenset(lines)
+    return out
